@@ -60,3 +60,17 @@ package dynamiccache
 //@ func package-operator.run/internal/dynamiccache.(cacheSettings[Request]).Start[sigs.k8s.io/controller-runtime/pkg/reconcile.Request]
 //@   ensures [C12] result == nil ==> len(e.source.handlers) == old(len(e.source.handlers)) + 1
 //@   ensures [C12] result == nil ==> e.source.handlers[len(e.source.handlers) - 1].handler == e.handler && e.source.handlers[len(e.source.handlers) - 1].queue == queue
+
+//@ props C18
+// A change to any watched object wakes its watchers: every update event - whatever changed, spec, status or metadata -
+// looks up and enqueues the watchers of the new and of the old object (enqLookups() counts the lookups of this call).
+//@ func package-operator.run/internal/dynamiccache.(*EnqueueWatchingObjects).Update
+//@   at enqueueWatchers ghost enqLookups() := enqLookups() + 1
+//@   at enqueueWatchers#1 assert [C18] arg0 == evt.ObjectNew
+//@   ensures [C18] enqLookups() == old(enqLookups()) + 2
+//@ func package-operator.run/internal/dynamiccache.(*EnqueueWatchingObjects).Create
+//@   at enqueueWatchers ghost enqLookups() := enqLookups() + 1
+//@   ensures [C18] enqLookups() == old(enqLookups()) + 1
+//@ func package-operator.run/internal/dynamiccache.(*EnqueueWatchingObjects).Delete
+//@   at enqueueWatchers ghost enqLookups() := enqLookups() + 1
+//@   ensures [C18] enqLookups() == old(enqLookups()) + 1
